@@ -344,7 +344,25 @@ func (c *container) Destroy() error {
 	// kill process
 	c.process.Kill()
 	_, err := c.process.Wait()
+
+	// a reply that arrived but was never taken (the call returned through the
+	// transport error) may carry descriptors: release them
+	c.drainReplies()
 	return err
+}
+
+// drainReplies closes the descriptors of replies left in recvCh once the
+// receive loop has stopped; no call is in flight (the caller holds c.mu)
+func (c *container) drainReplies() {
+	<-c.done
+	for {
+		select {
+		case r := <-c.recvCh:
+			closeFds(r.Msg.Fds)
+		default:
+			return
+		}
+	}
 }
 
 // newPassCredSocketPair creates socket pair and let the first socket to receive credential information
